@@ -86,6 +86,9 @@ def run(prop, tier, replay):
         scripts, inv = generate(tier, work)
         extra, n_behaviours = tlc_scripts(tier, scripts)
         scripts += extra
+        # the same request lines through the web server's POST /api/control (web.rs: web-level auth, token header
+        # injected into the request, same handlers): every line that is no well-formed request, every 3rd of the others
+        scripts += [dict(s, http=True, **{"from": s.get("from", "?") + "+http"}) for i, s in enumerate(scripts) if i % 3 == 0 or s.get("wf") == "no"]
     sp = work / "all.scripts.ndjson"
     with open(sp, "w") as f:
         for s in scripts:
@@ -111,7 +114,7 @@ def run(prop, tier, replay):
         rep.violation(key, {"script": scripts[ri], "why": why, "expected": b["exp"], "credential": b["c"],
                             "observed_required_role": b["req"], "observed_mutating": b["mut"],
                             "rejected_event": ev, "trace": runs[ri]},
-                      f"run {b['run']} ({b['kind']}, token {'set' if cfg['token'] else 'unset'}, debug {'on' if cfg['debug'] else 'off'}, "
+                      f"run {b['run']} ({'over HTTP /api/control, ' if scripts[ri].get('http') else ''}{b['kind']}, token {'set' if cfg['token'] else 'unset'}, debug {'on' if cfg['debug'] else 'off'}, "
                       f"control mode {cfg.get('mode')}), credential {b['c']}: {', '.join(why)}; the specification allows "
                       f"{b['exp']} here (observed threshold {b['req']}, mutating {b['mut']}); reply: {ev.get('cls')} {ev.get('err', '')[:80]!r}, "
                       f"changed {ev.get('changed')}")
@@ -153,6 +156,7 @@ def run(prop, tier, replay):
         "request_types_observed_mutating": mutating,
         "state_changing_exchanges": sum(1 for r in reqs if r["changed"]),
         "endpoint_panics_or_aborts": sum(1 for r in reqs if r["panic"]),
+        "requests_sent_through_web_api_control": sum(1 for r in reqs if r.get("via") == "http"),
         "handler_hangs": {t: sorted(h) for t, h in hangs.items()},
         "handler_hang_exchanges": verdict["hangs"],
         "rejected_runs": len(verdict["bad"]),
